@@ -8,6 +8,7 @@ import (
 	"sync"
 
 	dbm "github.com/cometbft/cometbft-db"
+	sdk "github.com/cosmos/cosmos-sdk/types"
 	"pgregory.net/rapid"
 
 	"verif/chain"
@@ -60,6 +61,17 @@ func GenGenesis(t *rapid.T, prof *Profile) GenesisSpec {
 	doc := defaultEcoDoc()
 	accts := DefaultAccounts()
 	draw := func(label string, n int) int { return uniform(t, label, n) }
+	// a vesting account among the users: most of its coins are locked (it owns them, it cannot spend them)
+	if prof.VestingPct > 0 && draw("g.vesting", 100) >= 100-prof.VestingPct {
+		keep := []string{"1000", "1000000", "50000000", "0"}[draw("g.vesting.keep", 4)]
+		k, _ := sdk.NewIntFromString(keep)
+		var lk sdk.Coins
+		for _, d := range BankDenoms {
+			lk = lk.Add(sdk.NewCoin(d, sdk.NewInt(1_000_000_000_000).Sub(k)))
+		}
+		g.Locked = append(g.Locked, Fund{Addr: accts[3].String(), Coins: lk.String()})
+		g.Notes = append(g.Notes, "vesting{A3 spendable="+keep+"}")
+	}
 
 	// credit types
 	cts := []map[string]interface{}{{"abbreviation": "C", "name": "carbon", "unit": "metric ton CO2 equivalent", "precision": 6}}
